@@ -27,6 +27,8 @@ type Query implements Node {
   trio: Trio
   planned: Planned
   big(b: Big = B2, bs: [Big!]): Big
+  wide: Wide
+  dates(ds: [Date], dd: [[Date!]]): Int
 }
 type Mutation { set(in: Filter!): Pet }
 type Subscription { tick(every: Int): Int tock: Int pet: Pet }
@@ -40,6 +42,8 @@ type Person implements Node & Named { id: ID! name(short: Boolean): String pets(
 #
 # are things, not pets
 type Robot @entity { id: ID! model: String }
+# many fields with names one edit apart
+type Wide { fa: Int fb: Int fc: Int fd: Int fe: Int ff: Int fg: Int }
 # a long enumeration
 enum Big { B1 B2 B3 B4 B5 B6 B7 B8 B9 B10 }
 union Result = Pet | Person
@@ -185,7 +189,7 @@ var fieldSel = []string{
 	`__schema { types { name } }`, `__type(name: "Pet") { name kind }`, `__type { name }`, `pet { kind }`, `pet { kind { x } }`, `pet { }`,
 	`search { __typename }`, `search { id }`, `search { ... on Pet { id } }`, `node(id: 1) { ... on Pet { kind } }`, `node(id: 1) { nick }`, `x: id`,
 	`id: node(id: 1) { id }`, `person { pets { owner { pets { id } } } }`, `pet { __typename owner { __typename } }`, `named { __schema { types { name } } }`,
-	`search { ... on Named { name } }`, `search { ... on Node { id } }`, `search { ... on Robot { id } }`, `named { ... on Result { __typename } }`, `pet { ... on Thing { __typename } }`,
+	`wide { f }`, `wide { fa fz }`, `x: big(b: B0)`, `search { ... on Named { name } }`, `search { ... on Node { id } }`, `search { ... on Robot { id } }`, `named { ... on Result { __typename } }`, `pet { ... on Thing { __typename } }`,
 }
 
 var overlapSel = []string{
@@ -215,6 +219,7 @@ var linkSel = []string{
 	`c1: many(fs: [{req: true}, {req: false, kinds: CAT}])`,
 	`b8: person { friend { friend { nick } } pets { nick owner { age } } }`,
 	`b9: search(f: $f, n: $nn) { ... on Result { __typename } }`,
+	`d1: dates(ds: [1, {x: $v}, "s", [2]], dd: [[2], [{y: 1}, "t"]])`,
 }
 
 var overlapArgs = []string{
@@ -237,6 +242,8 @@ var litMenu = []string{
 	`{req: true, kinds: DOG}`, `{req: true, kinds: [CAT, BAD]}`, `{req: true, min: null}`, `{a: 1}`, `{a: 1, b: "x"}`, `{a: null}`, `{b: $v}`, `{a: $w}`, `[]`, `[[]]`, `"1"`, `-0`, `"DOG"`,
 	// variables and objects inside list literals (also where a custom scalar takes any literal)
 	`[$v]`, `[$nope]`, `[{a: 1, a: 2}]`, `{k: [$nope]}`, `[[$v, {x: $v}]]`,
+	// text that a second formatting pass would mangle
+	`"50%d %s"`,
 }
 
 var dirMenu = []string{
@@ -291,10 +298,21 @@ var ValidProfiles = []Profile{
 	}},
 	{Name: "values", Template: `query Q($v: Int, $w: Int!) { §0 u: list(xs: [[$v]]) w: req(a: $w) }`, Holes: [][]string{valuePositions()}},
 	{Name: "variables", Template: `query Q(§0) { §1 §2 } fragment VF on Query { req(a: $a) } fragment VG on Query { ...VF } fragment VH on Query @tag(name: "h", n: $a) { id } fragment VI on Query @tag(name: "i", n: $undefinedHere) { id } fragment VJ on Query { one(arg: {b: $a}) } fragment VK on Query { one(arg: {a: $undefinedThere}) }`, Holes: [][]string{
-		{`$a: Int!`, `$a: Int`, `$a: Int = 1`, `$a: Int! = 1`, `$a: Int = null`, `$a: Nope`, `$a: Pet`, `$a: [Int!]`, `$a: String`, `$a: Int!, $a: Int!`, `$a: Int!, $k: Kind = DOG`, `$a: Int!, $f: Filter = {req: true}`, `$a: Int! = "s"`, `$a: [Int]! = [1, null]`, `$a: Int!, $z: Int`, `$a: ID!`, `$a: Float!`, `$a: Int! @tag(name: "v")`, `$a: Int! @once`, `$a: Kind! = BAD`, `$a: Filter = {name: 1}`, `$a: [[Int]!]`, `$a: [Int]`, `$a: Boolean!`},
-		{`req(a: $a)`, `r2: req(a: 1, b: $a)`, `search(n: $a) { __typename }`, `search(q: $a) { __typename }`, `list(xs: [[$a]])`, `list(xs: $a)`, `search(f: {req: true, min: $a}) { __typename }`, `...VF`, `...VG`, `id @tag(name: "x", n: $a)`, `id`, `node(id: $b) { id }`, `search(ks: [$a]) { __typename }`, `one(arg: {a: $a})`, `search(i: $a, fl: $a) { __typename }`, `pet(kind: $a) { id }`, `id @skip(if: $a)`, `search(f: {req: $a}) { __typename }`, `list(xs: [$a])`, `nums(xs: [$a])`, `nums(ys: [[$a]])`, `nums(xs: $a)`, `...VH`, `...VH id @tag(name: "y", n: $a)`, `...VI`, `...VJ`, `...VK`, `one(arg: {a: $nope})`, `many(fs: [{req: true, kinds: [DOG], min: $a}])`},
+		{`$a: Int!`, `$a: Int`, `$a: Int = 1`, `$a: Int! = 1`, `$a: Int = null`, `$a: Nope`, `$a: Pet`, `$a: [Int!]`, `$a: String`, `$a: Int!, $a: Int!`, `$a: Int!, $k: Kind = DOG`, `$a: Int!, $f: Filter = {req: true}`, `$a: Int! = "s"`, `$a: [Int]! = [1, null]`, `$a: Int!, $z: Int`, `$a: ID!`, `$a: Float!`, `$a: Int! @tag(name: "v")`, `$a: Int! @once`, `$a: Kind! = BAD`, `$a: Filter = {name: 1}`, `$a: [[Int]!]`, `$a: [Int]`, `$a: Boolean!`, `$a: [[Int]!]!`, `$a: [[Int!]!]!`, `$a: [[Int!]]!`, `$a: [[Int!]!]`},
+		{`req(a: $a)`, `r2: req(a: 1, b: $a)`, `search(n: $a) { __typename }`, `search(q: $a) { __typename }`, `list(xs: [[$a]])`, `list(xs: $a)`, `search(f: {req: true, min: $a}) { __typename }`, `...VF`, `...VG`, `id @tag(name: "x", n: $a)`, `id`, `node(id: $b) { id }`, `search(ks: [$a]) { __typename }`, `one(arg: {a: $a})`, `search(i: $a, fl: $a) { __typename }`, `pet(kind: $a) { id }`, `id @skip(if: $a)`, `search(f: {req: $a}) { __typename }`, `list(xs: [$a])`, `nums(xs: [$a])`, `nums(ys: [[$a]])`, `nums(xs: $a)`, `nums(ys: $a)`, `...VH`, `...VH id @tag(name: "y", n: $a)`, `...VI`, `...VJ`, `...VK`, `one(arg: {a: $nope})`, `many(fs: [{req: true, kinds: [DOG], min: $a}])`},
 		{``, `r3: req(a: $a)`, `k: pet(kind: $k) { id }`, `ff: search(f: $f) { __typename }`, `...VF`, `o: one(arg: {a: $a})`, `o2: one(arg: {b: $a})`},
 	}, Optional: []string{"VF", "VG", "VH", "VI", "VJ", "VK"}},
+	// an anonymous operation with variables next to fragments that nothing spreads
+	{Name: "variables-anonymous", Template: `query (§0) { §1 } fragment VF on Query { req(a: $a) } fragment VG on Query { ...VF } §2`, Holes: [][]string{
+		{`$a: Int!`, `$a: Int`, `$a: Int!, $b: Int`, `$b: Int`},
+		{`r: req(a: $a)`, `id`, `...VF`, `...VG`, `...VG r: req(a: $b)`},
+		{``, `fragment VX on Query { x: req(a: $b) y: req(a: $a) }`, `query Other($a: Int!) { ...VF }`},
+	}},
+	// selection and value shapes whose tree form has optional or ordered parts
+	{Name: "shapes", Template: `query Q($c: Boolean = true) { §0 §1 }`, Holes: [][]string{
+		{`... { id }`, `... @skip(if: $c) { id }`, `... on Query { id }`, `pet { ... { id ... { name } } }`, `search { ... { __typename } }`, `named { ... @include(if: true) { id } ... on Pet { ... { nick } } }`},
+		{``, `s: search(f: {req: true, name: "a", min: 1, kinds: [CAT, DOG]}) { __typename }`, `d: date(d: {z: 1, a: {y: 2, b: [3, {d: 4, c: 5}]}})`, `m: many(fs: [{req: true, name: "b"}, {name: "a", req: false}])`},
+	}},
 	{Name: "fragments", Template: `query Q { §0 } §1 §2`, Holes: [][]string{
 		{`...F`, `id`, `...G`, `...Nope`, `node(id: 1) { ...F }`, `pet { ...F }`, `search { ...F }`, `named { ... on Person { id } }`, `pet { ... on Person { id } }`, `node(id: 1) { ... on Kind { x } }`, `...A`, `pet { ...F ...F }`, `... on Query { ...F }`, `... { ...F }`, `... on Pet { id }`, `person { ...F }`, `search { ...H }`, `...F ...G`, `named { ...I }`, `pet { ...I }`, `node(id: 1) { ...J }`, `planned { ...K eta }`, `planned { ... on Pet { id } nope }`, `pet { ...F } person { ...F }`, `person { ...F } pet { ...F }`},
 		{`fragment F on Query { id }`, `fragment F on Pet { id }`, `fragment F on Nope { id }`, `fragment F on Kind { x }`, `fragment F on Query { ...F }`, `fragment F on Query { id } fragment F on Query { id }`, ``, `fragment F on Filter { name }`, `fragment F on Query { pet { ...F } }`, `fragment F on Node { id }`, `fragment F on Result { __typename }`, `fragment F on Query { id ...G }`, `fragment F on Query { id ...Nope }`, `fragment F on name { id }`, `fragment F on Pat { id }`, `fragment F on Query { pet { id ...Nope2 } }`},
@@ -304,7 +322,8 @@ var ValidProfiles = []Profile{
 		append([]string{``}, dirMenu[4:]...), dirMenu, dirMenu, {``, `@tag(name: "v")`, `@skip(if: true)`, `@once`, `@tag(name: "v") @tag(name: "w")`},
 	}},
 	{Name: "operations", Template: `§0 §1 fragment SF on Subscription { tick tock } fragment SG on Subscription { tick }`, Holes: [][]string{
-		{`query A { id }`, `{ id }`, `query A { node }`, `mutation M { set(in: {req: true}) { id } }`, `subscription S { tick }`, `subscription S { tick tock }`, `subscription S { tick t2: tick }`, `subscription S { ...SF }`, `subscription S { ...SG }`, `subscription S { __typename }`, `subscription S { tick ...SG }`, `subscription S { ... on Subscription { tick } tock }`, `subscription { tick }`, `mutation { set(in: {req: true}) { id } }`, `subscription S { tick @skip(if: true) }`, `subscription S { pet { id name } }`, `subscription S { tick(every: 1) tick(every: 2) }`, `query ($x: Int) { id }`},
+		{`query A { id }`, `{ id }`, `query A { node }`, `mutation M { set(in: {req: true}) { id } }`, `subscription S { tick }`, `subscription S { tick tock }`, `subscription S { tick t2: tick }`, `subscription S { ...SF }`, `subscription S { ...SG }`, `subscription S { __typename }`, `subscription S { tick ...SG }`, `subscription S { ... on Subscription { tick } tock }`, `subscription { tick }`, `mutation { set(in: {req: true}) { id } }`, `subscription S { tick @skip(if: true) }`, `subscription S { pet { id name } }`, `subscription S { tick(every: 1) tick(every: 2) }`, `query ($x: Int) { id }`,
+			`subscription S { tick tick tock }`, `subscription S { tick t: tick tock }`, `subscription S { tick ...SG tock }`, `subscription S { ...SG ...SG tock }`, `fragment OF on Query { nope }`, `fragment OF on Query { id ...OF }`},
 		{`query SFu { ...X1 ...X2 } fragment X1 on Query { id } fragment X2 on Query { id } query U { s: id ... on Subscription { tick } }`, ``, `query A { id }`, `query B { id }`, `{ id }`, `mutation A { set(in: {req: true}) { id } }`, `subscription T { tock }`, `fragment A on Query { id } query UA { ...A }`},
 	}, Optional: []string{"SF", "SG"}},
 	{Name: "introspection", Template: `§0`, Holes: [][]string{{
